@@ -16,6 +16,9 @@ def build(name, args):
     if name == "knapsack":
         from nucs.examples.knapsack.knapsack_problem import KnapsackProblem
         return KnapsackProblem(*args)
+    if name == "quasigroup":
+        from nucs.examples.quasigroup.quasigroup_problem import QuasigroupProblem
+        return QuasigroupProblem(*args)
     if name == "quasigroup5":
         from nucs.examples.quasigroup.quasigroup_problem import Quasigroup5Problem
         return Quasigroup5Problem(*args)
